@@ -10,6 +10,7 @@ use vcore::drive::{Ctx, Engine, Report, Stage, Tier, Violation};
 pub enum Case {
     Wrapper(c14::Case),
     Pools(c15::Case),
+    Race(c14::RaceCase),
 }
 
 pub struct Syncx;
@@ -46,11 +47,18 @@ impl Engine for Syncx {
         use proptest::strategy::Strategy;
         let thorough = ctx.tier == Tier::Thorough;
         if ctx.prop == "C14" {
-            vec![Stage {
-                name: "wrapper".into(),
-                cases: if thorough { 16 * 8000 } else { 16 * 400 },
-                strategy: c14::case(thorough).prop_map(Case::Wrapper).boxed(),
-            }]
+            vec![
+                Stage {
+                    name: "wrapper".into(),
+                    cases: if thorough { 16 * 8000 } else { 16 * 400 },
+                    strategy: c14::case(thorough).prop_map(Case::Wrapper).boxed(),
+                },
+                Stage {
+                    name: "drop-race".into(),
+                    cases: if thorough { 16 * 4 } else { 16 },
+                    strategy: c14::race_case(thorough).prop_map(Case::Race).boxed(),
+                },
+            ]
         } else {
             vec![Stage {
                 name: "pools".into(),
@@ -64,6 +72,10 @@ impl Engine for Syncx {
         let (violation, inconclusive, nontrivial, mut labels, trace, step) = match (ctx.prop.as_str(), case) {
             ("C14", Case::Wrapper(c)) => {
                 let v = c14::run(c);
+                (v.violation, v.inconclusive, v.nontrivial, v.labels, v.trace, v.step)
+            }
+            ("C14", Case::Race(c)) => {
+                let v = c14::run_race(c);
                 (v.violation, v.inconclusive, v.nontrivial, v.labels, v.trace, v.step)
             }
             ("C15", Case::Pools(c)) => {
